@@ -440,6 +440,10 @@ MORE = {
  'C20': "sources whose FILE sizes add up past 2^32 only because of big chunks after the data (must fit); a 2.5 GiB sparse chunk after the data; CLM stems measured without whatever extension the file has; multi-layer frames with compensating counts.",
 }
 MORE3 = {'C01': " Round 5: inputs named like a temporary/backup companion of the output (out.vol.tmp, .bak, ~, .part ...) in the output's directory.", 'C02': ' Round 5: input sets with two names equal ignoring case - either refused or, if written, well-formed (either-or oracle).', 'C03': " Round 5: a filler chunk sized so that the header of 'fmt ', 'data' or a skipped chunk starts at B-8..B+2 for B = 256..65536 (sweep of all 162 combinations with 70000 bytes of audio, one file in eight in generated sets); a fresh archive object whose very first call is OpenStream / ExtractFile / GetSize / GetName / GetIndex.", 'C04': ' Round 5: nine token streams that cross the counter capacity with a dominant symbol (one literal only, dominant + rare symbol with the crossing code being either, one match code only, alternating, long dominant phase then cold symbols), all drains and extraction.', 'C07': ' Round 5: tileset names made of NUL bytes; at most 700 prefix cuts per case (evenly thinned, first 200 and last 40 kept) so that one case stays bounded.', 'C08': ' Round 5: rows wider than 16 bits (widths 65535..131073, 2^20+1 at 1 bpp) from files and factories.', 'C09': ' Round 5: custom tileset files DECLARING depth 0/1/2/4/16/24/32 laid out consistently for that depth in eight layouts (must be refused).', 'C10': ' Round 5: scan-line widths off by +-1..3, 5, 8, 256 on both reader and writer side; two frames whose count/list mismatches cancel.', 'C11': ' Round 5: stated image size agreeing with the dimensions while the size field / file carry fewer or no pixel bytes (7 variants x 4 shapes x 3 depths + two mutation kinds); rows with pitch 16384..131076 bytes through every follow-up; PRT image entries 16385 and 70000 pixels wide.', 'C13': ' Round 5: volume members of the RLE/LZ kinds whose index size differs from the stored length (the member stream is the stored bytes).', 'C15': ' Round 5: hot/cold runs - one symbol 127..65000 updates ahead (leads around 2^7, 2^8, 2^15), then cold symbols, tree compared after every step.', 'C16': ' Round 5: maps carry 0..9 tileset sources (empty slots before/between/behind named ones, tile counts 1..70000 below and above the image indices in use); accessors re-checked on 4096 coordinates after TrimTilesetSources().', 'C17': ' Round 5: one clump member in three keeps a dot in its name (it has an extension for type listings).', 'C18': " Round 5: WAVs whose 'fmt ' chunk holds 14, 12, 8, 2 or 0 bytes (packed or refused - the answer and bytes must not depend on memory); names with bytes 0xFF/0xFE/0x80 where two names first differ.", 'C19': ' Round 5: the relation the writers sort their input PATHS with (ArchiveFile::ComparePathFilenames via a derived probe) - asymmetry, transitivity, incomparability == equality of the member names GetNamesFromPaths extracts, agreement with the name order, and the sort + extract + duplicate-detection pipeline (throws exactly when two names are equal ignoring case).', 'C20': ' Round 5: clump base names holding multi-byte UTF-8 sequences (longer than 8 bytes, at most 8 characters); 1..3 empty volume members whose blocks start at 2^32-24..2^32-4 followed by one more member.'}
+# descriptor budgets above the default of 160: VolFile::CreateArchive holds every input open at once (150 / 700 members in C01's sweeps, up to 110 in C18)
+PROPS['C01']['nofile'] = 900
+PROPS['C18']['nofile'] = 400
+PROPS['C02']['nofile'] = 300
 MORE4 = {'C01': " Round 6: after the per-member checks a SESSION of up to 12 calls in tape-chosen order on one archive object - extraction, extraction onto a directory (refused), an index beyond the count, streams read whole, streams kept open while other calls run and continued later, over-long reads, extraction by name, lookups of absent names - each step judged on its own; sweep of all 1728 three-call sessions over {extract, extract onto a directory, stream, held stream} x 3 members followed by a pass over every member; the backslash and ' ; & $ as ordinary name characters.", 'C02': ' Round 6: the same session alphabet on reference-encoded archives (LZH and unsupported-kind members included; extraction of the latter may be refused) and the 1728 three-call sessions on a plain/LZH/plain volume.', 'C03': ' Round 6: the session alphabet on the reopened CLM (extracted WAVs judged by the strict parser) and the 1728 three-call sessions on three tracks.', 'C04': ' Round 6: in a quarter of the runs the decoder object is replaced in mid-stream (after 0..6 drain calls) by a copy or a moved-to object of itself, the original destroyed; compiled only while HuffLZ is copy/move constructible.', 'C06': ' Round 6: at every fifth edit the map is copied (copy-assigned, copy-constructed, or copied and the original destroyed); the edits continue on the copy - first at the cell touched last - and every original still alive must hold, and serialise to, what it held when it was copied.', 'C08': ' Round 6: files carrying 1..8 surplus or 1..4 missing pixel bytes, counted in the size field and present in the stream (sweep over every depth/width/height of the dims grid, one generated file in ten): refused, or accepted and lawful.', 'C09': ' Round 6: between two saves of a partial-palette picture another picture of the same height with a full different colour table, and one of another height, go through the writer - the bytes must not change; one picture case in four is preceded by another picture (same or other height) going through every step.', 'C10': ' Round 6: after every refused write the lawful structure is written again (twice) and must give the bytes it gave before; after every refused read the intact file makes the whole round trip; one valid case in four is preceded by another structure going through reader and writer.', 'C11': ' Round 6: PRT image records combining a degenerate size (0..2 in width/height) with a palette index at/after the palette count and a scan line of 0 or the rounded width (sweep and one PRT case in four); the C10 cross-field predicate is no longer asserted on accepted objects here - only the safety of every follow-up.', 'C12': " Round 6: one history in four continues from its middle on a copy of the reader (copy-constructed MemoryReader / FileSliceReader, original optionally destroyed), the copy's start read from the copy itself.", 'C15': ' Round 6: capacity runs with 1..40 refused calls (out-of-range symbols) spread over the run: exactly 65535-n updates must still be accepted.', 'C16': " Round 6: one object holding maps of different heights one after the other (assigned by move from a fresh read and by copy), first queried in the block queried last before; copies whose original's mapping entry is changed, or whose original is destroyed, before the copy's first query.", 'C17': ' Round 6: pool names sharing a prefix and then differing in a byte between the letter cases against a letter (map_1.txt, mapa.txt, MAPB.TXT, map^2.txt, map`.txt).'}
 for _pid, _t in MORE.items():
     PROPS[_pid]['rule'] += " Also generated (second session): " + _t + MORE3.get(_pid, '') + MORE4.get(_pid, '')
